@@ -368,6 +368,8 @@ class DataFile:
       try:
         self.max_row_count = int(self.gsi.MNR)
         LOGGER.debug("GSI MNR: %s", self.gsi.MNR)
+        if self.max_row_count <= 0:
+          raise ValueError("MNR must be a positive number of rows")
       except ValueError:
         LOGGER.error("Invalid MNR value: %s", self.gsi.MNR)
         self.max_row_count = DEFAULT_TELETEXT_ROWS
